@@ -34,6 +34,9 @@ def main():
         pid = re.match(r"C\d\d", tag).group(0)
         meta = json.loads((out / "meta.json").read_text())
         name = f"{pid}-{slug(meta.get('summary') or tag)}"
+        if (V / "seeded" / name / "patch.diff").exists() and \
+                (V / "seeded" / name / "patch.diff").read_text() != (out / "patch.diff").read_text():
+            name += "-" + tag[3:]          # never overwrite an earlier change that happens to share the slug
         p = subprocess.run(["python3", "harness/seedtool.py", "verify", tag, name, "--checks", pid, "--seeds", "0"],
                            cwd=V, text=True, capture_output=True)
         txt = p.stdout + p.stderr
